@@ -170,3 +170,209 @@ pub mod net {
         }
     }
 }
+
+/// Persistent-state histories, model and on-disk snapshot helpers (C06, C07)
+pub mod pstate {
+    use saorsa_core::persistent_state::{FlushStrategy, PersistentStateManager, RecoveryMode, StateConfig, WalEntry};
+    use std::collections::{BTreeMap, HashMap};
+    use std::path::{Path, PathBuf};
+    use std::time::Duration;
+    use vkit::Rng;
+
+    /// stored value: (unique op id, the key it was written for)
+    pub type Val = (u64, String);
+    pub type Mgr = PersistentStateManager<Val>;
+
+    #[derive(Clone, Debug)]
+    pub enum Op {
+        Upsert(String, Val),
+        Delete(String),
+        /// one logical operation: a set of (key, Some(value)|None=delete)
+        Batch(Vec<(String, Option<Val>)>),
+        Checkpoint,
+    }
+    impl Op {
+        pub fn kind(&self) -> &'static str {
+            match self {
+                Op::Upsert(..) => "upsert",
+                Op::Delete(..) => "delete",
+                Op::Batch(..) => "batch",
+                Op::Checkpoint => "checkpoint",
+            }
+        }
+    }
+
+    pub fn apply(state: &mut BTreeMap<String, Val>, op: &Op) {
+        match op {
+            Op::Upsert(k, v) => {
+                state.insert(k.clone(), v.clone());
+            }
+            Op::Delete(k) => {
+                state.remove(k);
+            }
+            Op::Batch(ch) => {
+                for (k, v) in ch {
+                    match v {
+                        Some(v) => {
+                            state.insert(k.clone(), v.clone());
+                        }
+                        None => {
+                            state.remove(k);
+                        }
+                    }
+                }
+            }
+            Op::Checkpoint => {}
+        }
+    }
+
+    /// states after every prefix: prefixes[j] = state after ops[0..j]
+    pub fn prefixes(ops: &[Op]) -> Vec<BTreeMap<String, Val>> {
+        let mut out = Vec::with_capacity(ops.len() + 1);
+        let mut st = BTreeMap::new();
+        out.push(st.clone());
+        for op in ops {
+            apply(&mut st, op);
+            out.push(st.clone());
+        }
+        out
+    }
+
+    pub fn gen_op(rng: &mut Rng, opid: u64, nkeys: usize, state: &BTreeMap<String, Val>, allow_checkpoint: bool) -> Op {
+        let key = |rng: &mut Rng| format!("k{}", rng.usize_below(nkeys));
+        match rng.weighted(&[55, 18, 17, if allow_checkpoint { 10 } else { 0 }]) {
+            0 => {
+                let k = key(rng);
+                Op::Upsert(k.clone(), (opid, k))
+            }
+            1 => {
+                // prefer deleting something that exists
+                let k = if !state.is_empty() && rng.chance(0.8) { state.keys().nth(rng.usize_below(state.len())).cloned().unwrap_or_else(|| key(rng)) } else { key(rng) };
+                Op::Delete(k)
+            }
+            2 => {
+                let n = rng.urange(2, 6);
+                let mut ch: Vec<(String, Option<Val>)> = Vec::new();
+                for j in 0..n {
+                    let k = key(rng);
+                    if ch.iter().any(|(kk, _)| *kk == k) {
+                        continue;
+                    }
+                    if state.contains_key(&k) && rng.chance(0.3) {
+                        ch.push((k, None));
+                    } else {
+                        ch.push((k.clone(), Some((opid * 100 + j as u64, k))));
+                    }
+                }
+                if ch.is_empty() {
+                    let k = key(rng);
+                    ch.push((k.clone(), Some((opid * 100, k))));
+                }
+                Op::Batch(ch)
+            }
+            _ => Op::Checkpoint,
+        }
+    }
+
+    pub async fn run_op(m: &Mgr, op: &Op) -> Result<(), String> {
+        match op {
+            Op::Upsert(k, v) => m.upsert(k.clone(), v.clone()).await.map(|_| ()).map_err(|e| e.to_string()),
+            Op::Delete(k) => m.delete(k).await.map(|_| ()).map_err(|e| e.to_string()),
+            Op::Batch(ch) => {
+                let ch = ch.clone();
+                m.batch_update(move |st: &mut HashMap<String, Val>| {
+                    for (k, v) in &ch {
+                        match v {
+                            Some(v) => {
+                                st.insert(k.clone(), v.clone());
+                            }
+                            None => {
+                                st.remove(k);
+                            }
+                        }
+                    }
+                    Ok(())
+                })
+                .await
+                .map_err(|e| e.to_string())
+            }
+            Op::Checkpoint => m.checkpoint().await.map_err(|e| e.to_string()),
+        }
+    }
+
+    pub fn config(dir: &Path, flush: FlushStrategy) -> StateConfig {
+        StateConfig {
+            state_dir: dir.to_path_buf(),
+            flush_strategy: flush,
+            checkpoint_interval: Duration::from_secs(3600),
+            enable_compression: false,
+            recovery_mode: RecoveryMode::Standard,
+            max_state_size: 1 << 30,
+        }
+    }
+
+    /// a directory captured in memory: (file name, bytes)
+    pub type DirImage = Vec<(String, Vec<u8>)>;
+
+    pub fn capture(dir: &Path) -> DirImage {
+        let mut v = Vec::new();
+        if let Ok(rd) = std::fs::read_dir(dir) {
+            for e in rd.flatten() {
+                if e.path().is_file() {
+                    if let (Some(n), Ok(b)) = (e.file_name().to_str().map(|s| s.to_string()), std::fs::read(e.path())) {
+                        v.push((n, b));
+                    }
+                }
+            }
+        }
+        v.sort();
+        v
+    }
+
+    pub fn materialize(img: &DirImage, dir: &Path) {
+        let _ = std::fs::create_dir_all(dir);
+        for (n, b) in img {
+            let _ = std::fs::write(dir.join(n), b);
+        }
+    }
+
+    /// (file, offset of record start, record length incl. 4-byte prefix, decoded entry if it decodes)
+    pub fn wal_records(bytes: &[u8]) -> Vec<(usize, usize, Option<WalEntry>)> {
+        let mut out = Vec::new();
+        let mut off = 0usize;
+        while off + 4 <= bytes.len() {
+            let len = u32::from_le_bytes([bytes[off], bytes[off + 1], bytes[off + 2], bytes[off + 3]]) as usize;
+            if off + 4 + len > bytes.len() {
+                break;
+            }
+            let e = postcard::from_bytes::<WalEntry>(&bytes[off + 4..off + 4 + len]).ok();
+            out.push((off, 4 + len, e));
+            off += 4 + len;
+        }
+        out
+    }
+
+    pub fn is_wal(name: &str) -> bool {
+        name.ends_with(".wal")
+    }
+    pub fn is_snap(name: &str) -> bool {
+        name.ends_with(".snap")
+    }
+
+    pub fn scratch(tag: &str) -> PathBuf {
+        let base = std::env::var("VERIF_SCRATCH").unwrap_or_else(|_| "/tmp/verif-scratch".into());
+        let p = PathBuf::from(base).join(format!("pid-{}", std::process::id())).join(format!("{tag}-{:x}", rand_u64()));
+        let _ = std::fs::create_dir_all(&p);
+        p
+    }
+    /// remove everything this process put under the scratch base
+    pub fn scratch_cleanup() {
+        let base = std::env::var("VERIF_SCRATCH").unwrap_or_else(|_| "/tmp/verif-scratch".into());
+        let _ = std::fs::remove_dir_all(PathBuf::from(base).join(format!("pid-{}", std::process::id())));
+    }
+    fn rand_u64() -> u64 {
+        use std::sync::atomic::{AtomicU64, Ordering};
+        static C: AtomicU64 = AtomicU64::new(1);
+        C.fetch_add(1, Ordering::Relaxed) ^ (std::time::SystemTime::now().duration_since(std::time::UNIX_EPOCH).map(|d| d.as_nanos() as u64).unwrap_or(0) << 16)
+    }
+}
